@@ -372,7 +372,7 @@ def layout(rng, nmaps, plain=False):
     return {"order": order, "rows": rng.choice(["sorted", "sorted", "shuffled", "interleaved"]),
             "marker": rng.choice(["last", "last", "first", "random"]),
             "extra_cols": rng.choice([0, 0, 1, 3]), "comments": rng.choice([0, 0, 2]),
-            "col_perm": rng.random() < 0.15, "seed": rng.randrange(1 << 30)}
+            "col_perm": rng.random() < 0.15, "f_line": rng.random() < 0.8, "seed": rng.randrange(1 << 30)}
 
 
 MODES = ("best", "separate", "joined", "all")
